@@ -42,11 +42,13 @@ type Ctl struct {
 }
 
 type siteBuilder struct {
-	t    *rapid.T
-	site Site
-	host string
-	n    int
-	feat map[string]bool
+	t      *rapid.T
+	site   Site
+	host   string
+	n      int
+	feat   map[string]bool
+	leaves []string // leaf resources created so far for this seed (targets for "the same URL again, deeper in the tree")
+	extra  []string // further references the current page must carry (companions of an asset just generated)
 }
 
 func (b *siteBuilder) name(prefix, ext string) string {
@@ -78,6 +80,7 @@ func (b *siteBuilder) failing(r *Res) *Res {
 func (b *siteBuilder) leaf() string {
 	u := b.name("a", ".png")
 	b.site[u] = b.failing(&Res{Kind: "bin"})
+	b.leaves = append(b.leaves, u)
 	return u
 }
 
@@ -124,7 +127,23 @@ func (b *siteBuilder) doc(levels int) string {
 
 // asset creates one embedded resource of a page and returns the reference the page carries for it.
 func (b *siteBuilder) asset(siblings []string) string {
-	switch b.pick("assetkind", 15) {
+	switch b.pick("assetkind", 16) {
+	case 15:
+		// a small document with one embedded resource, and next to it a redirect chain (two or three hops) that ends on that
+		// very resource: the chain arrives one or two passes after the document's branch of the tree is finished
+		d := b.name("d", ".json")
+		x := b.leaf()
+		b.site[d] = &Res{Kind: "json", Assets: []string{x}}
+		hopsN := 2 + b.pick("chainhops", 2)
+		next := x
+		for i := 0; i < hopsN; i++ {
+			ru := b.name("r", ".dat")
+			b.site[ru] = &Res{Kind: "redirect", Status: []int{301, 302, 307}[b.pick("code", 3)], Loc: next}
+			next = ru
+		}
+		b.extra = append(b.extra, next)
+		b.feat["redirect-chain-to-finished-branch"] = true
+		return d
 	case 0, 1, 2, 3:
 		return b.leaf()
 	case 4, 5:
@@ -149,7 +168,16 @@ func (b *siteBuilder) asset(siblings []string) string {
 			b.feat["asset-redirect-to-excluded"] = true
 		default: // two hops
 			mid := b.name("r", "")
-			b.site[mid] = &Res{Kind: "redirect", Status: 302, Loc: b.leaf()}
+			end := ""
+			if len(b.leaves) > 0 && b.pick("sameagain", 2) == 0 {
+				// ... ending on a resource some document of this seed embeds as well: by the time the chain gets there
+				// (one pass later than the document's own assets) that branch of the tree may already be finished
+				end = b.leaves[b.pick("whichleaf", len(b.leaves))]
+				b.feat["redirect-chain-to-known-resource"] = true
+			} else {
+				end = b.leaf()
+			}
+			b.site[mid] = &Res{Kind: "redirect", Status: 302, Loc: end}
 			loc = mid
 		}
 		b.site[u] = &Res{Kind: "redirect", Status: []int{301, 302, 307, 308}[b.pick("code", 4)], Loc: loc}
@@ -198,6 +226,8 @@ func (b *siteBuilder) page() string {
 	for i := 0; i < n; i++ {
 		r.Assets = append(r.Assets, b.asset(r.Assets))
 	}
+	r.Assets = append(r.Assets, b.extra...)
+	b.extra = nil
 	nl := b.pick("nlinks", 4)
 	for i := 0; i < nl; i++ {
 		if b.pick("linkkind", 4) == 0 {
